@@ -21,6 +21,29 @@ chk("C17", "exploration",
     "Independent oracle over boundary-directed inputs: uid-tagged elements make permutation/stability decidable, adjacent-pair scan decides order and IsSorted, heap pops are checked exactly-once and non-decreasing; list usability after sort is re-checked structurally.",
     TB, "runtime monitoring: independent order/permutation oracle over generated inputs", "DESIGN.md §5 C17")
 
+chk("C02", "exploration",
+    "Reference-model runtime monitor: seeded operator trees of the order-preserving iterator operations are built from the real library and, independently, evaluated as pure functions over slices; every sink (ReadOne incl. calls after the first error, Slice, Count, Reduce, Contains, MarshalJSON) must agree, with injected skip/errors. Exploration: the space of trees/inputs is unbounded; the oracle per tree is exact.",
+    TB + " Errors in a non-last operand of Join/Chain/Merge* are outside the asserted region (DESIGN 7a).",
+    "runtime monitoring: differential oracle (library pipeline vs pure-function interpreter) over generated operator trees", "DESIGN.md §5 C02")
+chk("C05", "exploration",
+    "Linearizability monitor: many short concurrent histories of the real Queue recorded at the client boundary (logical clock, unique values, cancellations, Close) and checked offline with porcupine against a sequential bounded-FIFO model incl. the soft-quota/burst-credit rules; plus long lock-step scripts. Exploration: histories are sampled; each is decided exactly (Ok/Illegal/Unknown).",
+    TB + " porcupine v1.3.0 is trusted; Unknown (timeout) is reported as inconclusive.",
+    "runtime monitoring: recorded histories + porcupine linearizability checking against an executable sequential model", "DESIGN.md §5 C05")
+chk("C06", "exploration",
+    "Same instrument as C05 with the deque model: both ends, plain push on full fails without effect, Force push evicts exactly one item from the opposite end, Close semantics, context errors are no-ops; capacities 1/2/3/5, unlimited and QueueOptions trackers.",
+    TB + " porcupine v1.3.0 is trusted; Unknown (timeout) is reported as inconclusive.",
+    "runtime monitoring: recorded histories + porcupine linearizability checking against an executable sequential model", "DESIGN.md §5 C06")
+chk("C12", "exploration",
+    "Reference-model monitor over generated error-expression trees (Join/Wrap/%w/errors.Join/Stack-in-Stack/ParsePanic): a multiset-of-constituents model predicts nil-ness, identity, errors.Is/As, Unwind; concurrent Collector runs (also under the race detector in the thorough tier) check Len/Resolve/visibility of own Adds.",
+    TB, "runtime monitoring: reference-model oracle over generated expression trees + concurrent collector driver under -race", "DESIGN.md §5 C12")
+chk("C18", "exploration",
+    "Lock-step reference model (map + order slice) for sequential Set scripts, and porcupine-checked concurrent histories of a synchronized Set (partitioned by key; unpartitioned with Len).",
+    TB + " Equal is not compared across ordered/unordered sets (DESIGN 7i).",
+    "runtime monitoring: lock-step reference model + porcupine linearizability checking of recorded histories", "DESIGN.md §5 C18")
+chk("C19", "exploration",
+    "Independent oracle: the exact order statistic of a sorted copy of the recorded multiset bounds every quantile, Min and Max within one bucket width; counts conserved; Export/Import and Merge round trips; boundary-directed shapes and values; any panic is a violation.",
+    TB, "runtime monitoring: exact order-statistic oracle over boundary-directed generated histograms", "DESIGN.md §5 C19")
+
 ALL = ["C%02d" % i for i in range(1, 21)]
 pending = "monitor for this property is not built yet in this revision of /verif (planned in DESIGN.md §5); nothing is claimed for it"
 manifest = dict(
